@@ -278,14 +278,14 @@ def obligations(tier):
                       healthy_requests=[GOOD1.decode(), GOOD2.decode()])
         out.append(Ob(name, h_server, dict(base=base, kinds=list(kinds), alpha=list(alpha), orders=list(orders),
                                            split=split, prefix=prefix),
-                      budget=400 if quick else 3000, covers=list(covers), bounds=bounds))
+                      budget=900 if quick else 6000, covers=list(covers), bounds=bounds))
 
     def cli(name, base, kinds=KINDS, alpha=alpha, split=False, covers=()):
         bounds = dict(side="client", base_response=RSP_BASES[base].decode("latin-1"), mutation_kinds=list(kinds),
                       byte_classes=names(alpha), delivery="two receives, cut symbolic" if split else "one receive",
                       then="peer closes")
         out.append(Ob(name, h_client, dict(base=base, kinds=list(kinds), alpha=list(alpha), split=split),
-                      budget=400 if quick else 3000, covers=list(covers), bounds=bounds))
+                      budget=900 if quick else 6000, covers=list(covers), bounds=bounds))
 
     full = ("request-yielded", "waits", "failed-and-closed")
     orders = ("AB",) if quick else ("AB", "BA")
